@@ -185,3 +185,85 @@ PLANS["C20"] = dict(
     invariants=["Inv_C20"], actions=["Act_C20"],
     rule="non-trivial: update / instantiate messages with each optional field absent, in range, on the boundary and out of range",
     mc=[auth_mc("all")], hunt=[auth_hunt("all")], sim=[auth_sim("all")], drive=auth_drive())
+
+PLANS["C12"] = dict(
+    invariants=["Inv_C12"], actions=[], rule="a case is (list of existing delegations, amount); all distinct; non-trivial = list non-empty and amount > 0",
+    gridjobs=[dict(grid=(dict(MaxLen=4, MaxStake=5, MaxExtra=6), dict(MaxLen=5, MaxStake=6, MaxExtra=8)), timeout=(300, 3000), random=(20000, 400000))])
+
+PLANS["C13"] = dict(
+    invariants=[], actions=["Act_C13"], rule="non-trivial: successful RemoveValidator of a validator that holds a delegation",
+    mc=[hf_mc("nv3", consts=dict(NV=3, InitVals=[1, 2, 3]), extra=dict(Features=["core", "registry", "reward"], Amts=[10], RewardAmts=[100], Dts=[3]), depth=(3, 4))],
+    hunt=[hf_hunt("nv3", consts=dict(NV=3, InitVals=[1, 2]), extra=dict(Features=["core", "slash", "registry", "reward"], RewardAmts=[40, 100]))],
+    sim=[hf_sim("nv3", consts=dict(NV=3, InitVals=[1, 2, 3]), extra=dict(Features=["core", "slash", "registry", "reward"], RewardAmts=[40, 100]))],
+    drive=[dict(name="registry", menu=menu(MENU_HUB, items={"add_validator": 4, "remove_validator": 6, "redelegations": 2, "set_canredel": 2, "accrue": 4, "ugi": 3, "set_ext": 0},
+                                           vary={"keeper_rate": [[0, 50000000, 0], [0, 0, 0]], "init_vals": [[1, 2, 3], [1, 2], [2]]}, amax=200),
+                runs=(120, 3000), len=40, consts=dict(MaxBatch=8, NV=3, InitVals=[1, 2, 3]))])
+
+LAB = dict(Features=["rewardlab"], Amts=[1, 3], RewardAmts=[1, 3, 7], MaxTime=100000)
+MENU_LAB = {"items": {"mint_b": 5, "transfer_b": 6, "burn_b": 1, "deliver": 5, "index_update": 5, "claim": 5, "bond": 2, "unbond_b": 2, "convert_b_st": 1,
+                      "convert_st_b": 1, "bond_st": 1, "from_b": 2, "allow_b": 2, "advance": 2},
+            "amax": 40, "dts": [1, 3, 5], "probes": ["claim"], "probe_every": 4}
+MENU_LAB_BIG = menu(MENU_LAB, amax=3000000)
+
+
+def lab_drives(runs=(150, 4000)):
+    return [dict(name="rewardlab", menu=MENU_LAB, runs=runs, len=40, consts=dict(MaxBatch=8, Users=["usr1", "usr2", "usr3"])),
+            dict(name="rewardlab-big", menu=MENU_LAB_BIG, runs=(40, 1500), len=40, consts=dict(MaxBatch=8, UserFunds=400000000, Users=["usr1", "usr2", "usr3"]))]
+
+
+for pid, inv, act, rule in (("C14", ["Inv_C14"], ["Act_C14"], "non-trivial: behaviours with >= 1 index update while >= 2 holders have balances, and claims (committed or probed)"),
+                            ("C15", ["Inv_C15"], ["Act_C15"], "non-trivial: behaviours with index updates interleaved with transfers / mints / burns of other holders"),
+                            ("C16", ["Inv_C16"], [], "non-trivial: behaviours exercising each of the nine bSei operations incl. hub-initiated burn / mint")):
+    PLANS[pid] = dict(
+        invariants=inv, actions=act, rule=rule,
+        mc=[hf_mc("lab", consts=dict(Users=["usr1", "usr2"]), extra=LAB, depth=(5, 7)),
+            hf_mc("flow", extra=dict(Features=["core", "transfer", "allow"], Amts=[1, 3]), depth=(3, 4), thorough_only=(pid != "C16"))],
+        hunt=[hf_hunt("lab", consts=dict(Users=["usr1", "usr2", "usr3"]), extra=LAB),
+              hf_hunt("flow", extra=dict(Features=["core", "transfer", "allow", "reward", "slash"], RewardAmts=[40, 100]), hunt_num=(150, 3000))],
+        sim=[hf_sim("lab", consts=dict(Users=["usr1", "usr2", "usr3"]), extra=LAB)],
+        drive=lab_drives() + [hub_drives()[0]])
+
+PLANS["C18"] = dict(
+    invariants=["Inv_C18"], actions=["Act_C18"], rule="non-trivial: behaviours with allowance-based operations, expirations, and instantiate messages with repeated addresses",
+    mc=[hf_mc("tok", extra=dict(Features=["core", "transfer", "allow"], Amts=[1, 3], Dts=[3]), depth=(3, 4)),
+        hf_mc("tokinit", extra=dict(Features=["tokinit", "transfer", "allow"], Amts=[1, 3]), depth=(3, 4))],
+    hunt=[hf_hunt("tok", extra=dict(Features=["core", "transfer", "allow", "tokinit"]))],
+    sim=[hf_sim("tok", extra=dict(Features=["core", "transfer", "allow", "tokinit"]))],
+    drive=[dict(name="tokens", menu=menu(MENU_HUB, items={"allow_b": 5, "allow_st": 5, "from_b": 6, "from_st": 6, "transfer_b": 4, "transfer_st": 4, "tokinit": 1}),
+                runs=(150, 4000), len=40, consts=dict(MaxBatch=8))])
+
+DISP = dict(FundAmts=[0, 1, 7, 30], Prices=["D1", "D075", "D03", "D1000", "D0001"], Rates=["D0", "D005", "D03", "D1"],
+            BondedPairs=[[1, 1], [1, 3], [10, 1], [0, 5], [5, 0], [7, 7], [1000, 1]], EmitLen=0, OnlyOk=False)
+DISP_PREFIX = [ex("usr1", "hub", {"k": "bond"}, [{"d": "usei", "a": 30}]), ex("usr2", "hub", {"k": "bond_for_st_sei"}, [{"d": "usei", "a": 10}])]
+DISP_CONSTS = dict(MaxBatch=3, UserFunds=1000, Prefix=DISP_PREFIX)
+
+
+def disp_mc(name, depth=(3, 5), timeout=(120, 1500), **kw):
+    return dict(name=name, module="MC_Dispatch", consts=dict(DISP_CONSTS), init="InitP", extra=dict(DISP), depth=depth, timeout=timeout, **kw)
+
+
+def disp_hunt(name, **kw):
+    j = disp_mc(name, **kw)
+    j.update(hunt_time=(240, 3000), hunt_num=(300, 6000), sim_depth=16)
+    return j
+
+
+MENU_DISP = {"items": {"fund_disp": 10, "disp_swap": 6, "disp_dispatch": 6, "ugi": 6, "accrue": 6, "set_price": 3, "keeper_rate": 3, "bond": 2, "bond_st": 2,
+                       "unbond_b": 1, "unbond_st": 1, "claim": 2, "advance": 1, "slash": 1},
+             "amax": 60, "dts": [1, 3], "probes": ["ugi"], "probe_every": 3}
+
+PLANS["C17"] = dict(
+    invariants=["Inv_C17"], actions=["Act_C17"], rule="a case is (balances of both reward coins, bonded pair, price, keeper rate); non-trivial = both a swap and a dispatch executed",
+    mc=[disp_mc("grid")], hunt=[disp_hunt("grid")],
+    sim=[dict(name="grid", module="MC_Dispatch", consts=dict(DISP_CONSTS), init="InitP", extra=dict(DISP), num=(60, 2500), depth=12)],
+    drive=[dict(name="dispatch", menu=MENU_DISP, runs=(150, 4000), len=40, consts=dict(MaxBatch=8)),
+           dict(name="dispatch-big", menu=menu(MENU_DISP, amax=2000000), runs=(40, 1500), len=40, consts=dict(MaxBatch=8, UserFunds=400000000))])
+
+PLANS["C19"] = dict(
+    invariants=[], actions=["Act_C19"], rule="non-trivial: successful UpdateGlobalIndex with pending rewards on >= 1 validator (also triggered by RemoveValidator)",
+    mc=[disp_mc("grid", depth=(3, 4)),
+        hf_mc("flow", consts=dict(NV=2, InitVals=[1, 2]), extra=dict(Features=["core", "reward", "registry"], Amts=[10], RewardAmts=[40, 100], Dts=[3]), depth=(3, 4))],
+    hunt=[disp_hunt("grid"), hf_hunt("flow", consts=dict(NV=2, InitVals=[1, 2]), extra=dict(Features=["core", "slash", "reward", "registry", "transfer"], RewardAmts=[1, 40, 100]), hunt_num=(200, 4000))],
+    sim=[hf_sim("flow", consts=dict(NV=2, InitVals=[1, 2]), extra=dict(Features=["core", "slash", "reward", "registry"], RewardAmts=[40, 100]))],
+    drive=[dict(name="dispatch", menu=MENU_DISP, runs=(150, 4000), len=40, consts=dict(MaxBatch=8, NV=2, InitVals=[1, 2])),
+           PLANS["C13"]["drive"][0]])
